@@ -3,7 +3,9 @@
 # clash between two properties' modules shows here only), no forbidden construct, every check green on the clean tree
 cd "$(dirname "$0")/.."
 git -C "${KODA_REPO:-/repo}" status --short | grep -q . && { echo "repository has uncommitted changes"; exit 3; }
-(cd lean && lake build KodaModel kvdriver 2>&1 | grep -E "error|✖|Build completed") || exit 1
+out=$(cd lean && lake build KodaModel kvdriver 2>&1); echo "$out" | grep -E "error|✖|Build completed"
+echo "$out" | grep -q "Build completed successfully" || { echo "PRECOMMIT FAILED: whole-library build"; exit 1; }
 grep -rn 'sorry\|admit\|^axiom \|native_decide\|bv_decide\|implemented_by\|unsafe \|maxHeartbeats 0' lean/KodaModel lean/Driver --include=*.lean | grep -v "^\S*:\s*--" | head
-tools/multiseed.sh quick ${1:-0} | grep -v "rc=0"
+bad=$(tools/multiseed.sh quick ${1:-0} | grep -v "rc=0")
+[ -n "$bad" ] && { echo "$bad"; echo "PRECOMMIT FAILED: checks"; exit 1; }
 echo "precommit done"
